@@ -685,6 +685,34 @@ func genC13(r *rng, tier string, emit func(string)) {
 			emit(fmt.Sprintf("sm2kex %d %s %s %s %s %s %s", 32, id(), id(), bhex(d), bhex(b.d), bhex(rs.d), bhex(rb.d)))
 		}
 	}
+	// the shared point V = (0, √b): a finite point of the curve whose x coordinate is zero (32 zero bytes enter the KDF);
+	// only V = O is a failure. One-sided: the peer's long-term key is chosen as PB = [tA⁻¹](0, √b) − [x̄2]RB.
+	{
+		c := sm2.P256Sm2()
+		N, P := c.Params().N, c.Params().P
+		sq := new(big.Int).ModSqrt(c.Params().B, P)
+		for i := 0; i < 2 && sq != nil; i++ {
+			a, ra, rb := r.sm2key(), r.sm2key(), r.sm2key()
+			y0 := sq
+			if i == 1 {
+				y0 = new(big.Int).Sub(P, sq)
+			}
+			xb := func(x *big.Int) *big.Int {
+				v := new(big.Int).And(x, new(big.Int).Sub(new(big.Int).Lsh(big.NewInt(1), 127), big.NewInt(1)))
+				return v.Add(v, new(big.Int).Lsh(big.NewInt(1), 127))
+			}
+			tA := new(big.Int).Mul(xb(ra.x), ra.d)
+			tA.Add(tA, a.d).Mod(tA, N)
+			tInv := new(big.Int).ModInverse(tA, N)
+			if tInv == nil {
+				continue
+			}
+			wx, wy := c.ScalarMult(big.NewInt(0), y0, tInv.Bytes())
+			qx, qy := c.ScalarMult(rb.x, rb.y, xb(rb.x).Bytes())
+			px, py := c.Add(wx, wy, qx, new(big.Int).Sub(P, qy))
+			emit(fmt.Sprintf("sm2kexbad A %d %s %s %s %s %s %s %s %s", 16+16*i, hx([]byte("A")), hx([]byte("B")), bhex(a.d), bhex(ra.d), bhex(px), bhex(py), bhex(rb.x), bhex(rb.y)))
+		}
+	}
 	// one-byte keys that come out as 00 (once in 256): GM/T 0003.3 has no "all-zero key" step, both parties get K = 00
 	{
 		a, b, ra := r.sm2key(), r.sm2key(), r.sm2key()
